@@ -2,7 +2,10 @@
    OGC validity rules, written against the exact kernel (QKernel.seg_seg, on_seg) and the point-set
    semantics of Base/Planar.v (crossing parity, slab arrangement).  It shares no code with the
    algorithmic model in Model/Validate.v except the ordinate type and the conversion to Q:
-   - no special-purpose probes: containment is tested at ALL vertices and edge midpoints;
+   - no special-purpose probes: "every point of a hole is inside or on the shell", "no point of a
+     hole is strictly inside another hole", "no point is interior to two members" are evaluated at
+     every witness of the exact arrangement; Proofs/Validate_ogc.v proves (slab sufficiency,
+     Proofs/Planar_slab.v) that this decides the statement for ALL points of Q^2;
    - ring simplicity is the definition (two segments share a point only if they are consecutive
      and the point is their common end, or they are the first and last segment of a closed line
      and the point is the closing vertex);
@@ -81,11 +84,35 @@ Fixpoint all_pairs {A} (f : A -> A -> bool) (l : list A) : bool :=
   | x :: r => forallb (f x) r && all_pairs f r
   end.
 
-(* vertices and edge midpoints of a ring *)
-Definition probe_points (ps : list pt) : list pt :=
-  ps ++ map (fun s => (qmid (fst (fst s)) (fst (snd s)), qmid (snd (fst s)) (snd (snd s)))) (ring_edges ps).
+(* ---- geometries of the point-set semantics (Base/Planar.v) built from vertex lists ---- *)
+Definition mkv (p : pt) : vtx Q := Build_vtx (fst p) (snd p) 0 0.
+Definition ring_line (ps : list pt) : lineT Q := MkLine XY (map mkv ps).
+Definition g_line (ps : list pt) : geom := GLine (ring_line ps).                       (* the curve *)
+Definition g_poly (rings : list (list pt)) : geom := GPoly (MkPoly XY (map ring_line rings)).
+Definition g_bdry (rings : list (list pt)) : geom := GMLine XY (map ring_line rings).  (* all rings *)
+Definition segs (ps : list pt) : list seg := line_segs (ring_line ps).
 
-Definition edges_of (ps : list pt) : list seg := ring_edges (dedup_consec ps).
+(* a boolean combination F of the memberships in the geometries gs holds at every witness of their
+   common arrangement (Validate_ogc.everywhere_spec: iff it holds at every point of Q^2) *)
+Definition everywhere (gs : list geom) (F : list bool -> bool) : bool :=
+  forallb (fun w => F (map (fun g => inG g (fst w)) gs))
+          (witnesses (flat_map arr_segments gs) (flat_map arr_points gs)).
+
+(* every point of the curve h is inside or on the ring shell *)
+Definition hole_inside (shell h : list pt) : bool :=
+  everywhere [g_poly [shell]; g_line h]
+    (fun bs => match bs with [ins; onh] => negb onh || ins | _ => true end).
+(* no point of the ring h is strictly inside the ring k, and no point of k strictly inside h *)
+Definition not_nested (h k : list pt) : bool :=
+  everywhere [g_poly [k]; g_line k; g_poly [h]; g_line h]
+    (fun bs => match bs with
+               | [ink; onk; inh; onh] => negb (onh && ink && negb onk) && negb (onk && inh && negb onh)
+               | _ => true
+               end).
+(* no point is interior to both polygons *)
+Definition interiors_disjoint (A B : list (list pt)) : bool :=
+  everywhere [g_poly A; g_bdry A; g_poly B; g_bdry B]
+    (fun bs => match bs with [ia; ba; ib; bb] => negb (ia && negb ba && ib && negb bb) | _ => true end).
 
 (* a polygon given by its rings (finite points, shell first) *)
 Definition poly_def (rings : list (list pt)) : bool :=
@@ -93,23 +120,21 @@ Definition poly_def (rings : list (list pt)) : bool :=
   | [] => true
   | shell :: holes =>
       forallb ring_def rings
-      && all_pairs (fun a b => rings_touch_ok (edges_of a) (edges_of b)) rings
-      && forallb (fun h => forallb (fun p => negb (ring_strict_out (edges_of shell) p)) (probe_points h)) holes
-      && all_pairs (fun h k =>
-                   forallb (fun p => negb (ring_strict_in (edges_of k) p)) (probe_points h)
-                   && forallb (fun p => negb (ring_strict_in (edges_of h) p)) (probe_points k)) holes
-      && interior_connected (map edges_of rings)
+      && all_pairs (fun a b => rings_touch_ok (segs a) (segs b)) rings
+      && forallb (hole_inside shell) holes
+      && all_pairs not_nested holes
+      && interior_connected (map segs rings)
   end.
 
 (* no two boundary segments of different polygons share a piece of positive length *)
 Definition boundaries_finite (A B : list (list pt)) : bool :=
   forallb (fun s => forallb (fun t => match seg_seg s t with SSOverlap _ _ => false | _ => true end)
-                            (flat_map edges_of B)) (flat_map edges_of A).
+                            (flat_map segs B)) (flat_map segs A).
 
 Definition mpoly_pair_def (A B : list (list pt)) : bool :=
   match A, B with
   | [], _ | _, [] => true
-  | _, _ => boundaries_finite A B && negb (interiors_meet (map edges_of A) (map edges_of B))
+  | _, _ => boundaries_finite A B && interiors_disjoint A B
   end.
 
 Definition mpoly_def (polys : list (list (list pt))) : bool :=
